@@ -446,6 +446,7 @@ func Run(t *tr.W, thorough bool) {
 		scenScanner(t, r)
 		scenBatchWriter(t, r)
 		scenWorkMgr(t, r)
+		scenWorkMgrProgress(t, r)
 		scenRescan(t, r, true)
 		scenRescan(t, r, false)
 		if i%3 == 0 {
